@@ -597,6 +597,9 @@ PROP = with_src(C17(), share=10, functions=["_Validator._process_" + v for v in 
 PROP = with_src(PROP, share=10, functions=["_Validator._process_description_content_type"], module="PkgProofs.Props.Src.MetaCtype",
                 theorems=["Src._Validator._process_description_content_type_translated",
                           "Src._Validator._process_description_content_type_eq_model"])
-# x6: `_Validator.__get__` (the per-instance cache and the `_raw` pop): translated and run against the real descriptor
+# x6: `_Validator.__get__` (the per-instance cache and the `_raw` pop): proved equal to `Meta.descGet` up to look-ups
+# (`Src.InstRel`), for raw values of the type the converter expects (`Src.WellTyped`) — the model's `tyErr` cases do not
+# mirror the source on ill-typed raw data
 PROP = with_src(PROP, share=10, functions=["_Validator.__get__"], module="PkgProofs.Props.Src.MetaGet",
-                theorems=["Src._Validator.__get___translated"])
+                theorems=["Src._Validator.__get___translated", "Src._Validator._process__dyn_eq", "Src.procSrc_eq_model",
+                          "Src._Validator.__get___eq_model", "Src._Validator.__get___no_converter"])
